@@ -202,6 +202,9 @@ mod error;
 mod expand;
 mod parse;
 mod replacer;
+#[cfg(feature = "verif_hooks")]
+#[doc(hidden)]
+pub mod verif;
 mod vm;
 
 use crate::analyze::analyze;
